@@ -454,7 +454,7 @@ def b_sysofeq(V, cfg):
     A = _matrix(V, cfg, "A", n)
     shpf = (len(free),) if nrhs == 0 else (len(free), nrhs)
     shpp = (len(pres),) if nrhs == 0 else (len(pres), nrhs)
-    xf = V.reals("xf", shpf)          # pre-image of the free solution
+    xf = V.cplxs("xf", shpf) if cfg.get("cplx_rhs") else V.reals("xf", shpf)          # pre-image of the free solution
     xp = V.reals("xp", shpp)
     Aff = A[np.ix_(free, free)]
     Afp = A[np.ix_(free, pres)]
